@@ -18,7 +18,7 @@ Notation rerase_wb := (erase_wb token tok_class t_text tok_num ty_name).
 Lemma stmt_list_no_block (l : rsl) w r : rtriv w -> rwf_l l -> no_block_next token tok_class (w ++ rflat_l l ++ r).
 Proof.
   intros Hw Hl. unfold no_block_next. rewrite (skip_app_triv token tok_class w _ Hw).
-  assert (G : forall g r0, wf_g token tok_class op_level true g ->
+  assert (G : forall g r0, wf_g token tok_class t_text tok_num op_level true g ->
               exists t r', flat_g token g ++ r0 = t :: r' /\ solid token tok_class t /\ block_start (tok_class t) = false).
   { intros [w1 semi w2|s m w0 semi] r0; cbn [wf_g flat_g].
     - intros (Hw1 & _ & Hsemi & _). rewrite (Hw1 eq_refl). cbn [app]. eexists semi, _. split; [reflexivity|].
@@ -27,10 +27,10 @@ Proof.
       destruct s; cbn [wf_s flat_s] in Hs; (try destruct Hs as (Hs & _)); eexists _, _; (split; [cbn [flat_s app]; reflexivity|]);
         unfold solid; rewrite Hs; split; try discriminate; reflexivity. }
   destruct l as [g|g l].
-  - change (rflat_l (LOne token g)) with (flat_g token g). change (wf_g token tok_class op_level true g) in Hl.
+  - change (rflat_l (LOne token g)) with (flat_g token g). change (wf_g token tok_class t_text tok_num op_level true g) in Hl.
     destruct (G g r Hl) as (t & r' & E & St & Bs). rewrite E, (skip_solid token tok_class t r' St). exact Bs.
   - change (rflat_l (LCons token g l)) with (flat_g token g ++ flat_l token l).
-    change (wf_g token tok_class op_level true g /\ wf_l token tok_class op_level (gempty token g) l) in Hl.
+    change (wf_g token tok_class t_text tok_num op_level true g /\ wf_l token tok_class t_text tok_num op_level (gempty token g) l) in Hl.
     destruct Hl as (Hg & _). rewrite <- app_assoc. destruct (G g (flat_l token l ++ r) Hg) as (t & r' & E & St & Bs).
     rewrite E, (skip_solid token tok_class t r' St). exact Bs.
 Qed.
@@ -58,11 +58,11 @@ Proof.
   pose proof (size_wbs_len token bl) as Bw. pose proof (proj1 (proj2 (size_bound_s token)) l) as Bl.
   (* the tokens after the name, in scope *)
   assert (Hscope_tail : in_scope token tok_class (rflat_l l ++ w2 ++ en :: w3) = true)
-    by (apply (wf_l_in_scope token tok_class op_level l w2 en KwEndPou w3 Hl H2 Cen H3)).
+    by (apply (wf_l_in_scope token tok_class t_text tok_num op_level l w2 en KwEndPou w3 Hl H2 Cen H3)).
   assert (Hnb : no_block_next token tok_class tail) by (unfold tail; apply stmt_list_no_block; assumption).
   assert (Hbody : forall F, rsize_l l <= F ->
             body token tok_class t_text tok_num op_level F (st_skip tail) = Ok (rerase_l l, w2 ++ en :: w3)).
-  { intros F HF. unfold tail, st_skip. rewrite (skip_app_triv token tok_class w1 _ H1), (flat_l_skip token tok_class op_level l _ Hl).
+  { intros F HF. unfold tail, st_skip. rewrite (skip_app_triv token tok_class w1 _ H1), (flat_l_skip token tok_class t_text tok_num op_level l _ Hl).
     unfold body. rewrite (plist_real l (w2 ++ en :: w3)); [reflexivity | exact Hl | eapply closer_at; [exact H2 | exact Cen | reflexivity] | | exact HF].
     intro Hb. rewrite (Habs Hb). cbn [app]. apply (skip_solid token tok_class en w3 Sen). }
   assert (Hend : match st_skip (w2 ++ en :: w3) with
@@ -82,7 +82,7 @@ Proof.
   - (* no declaration block *)
     change (rflat_wbs [] ++ tail) with tail. change (StParser.skip token tok_class tail) with (st_skip tail).
     assert (Es : st_skip tail = rflat_l l ++ w2 ++ en :: w3)
-      by (unfold tail, st_skip; rewrite (skip_app_triv token tok_class w1 _ H1); apply (flat_l_skip token tok_class op_level l _ Hl)).
+      by (unfold tail, st_skip; rewrite (skip_app_triv token tok_class w1 _ H1); apply (flat_l_skip token tok_class t_text tok_num op_level l _ Hl)).
     assert (Hb2 : body token tok_class t_text tok_num op_level (3 * Datatypes.length toks + 8) (st_skip (st_skip tail)) = Ok (rerase_l l, w2 ++ en :: w3)).
     { assert (Ess : st_skip (st_skip tail) = st_skip tail) by (apply skip_skip). rewrite Ess. apply Hbody. lia. }
     assert (Hnb' : no_block_next token tok_class (st_skip tail)) by (rewrite Es; apply (stmt_list_no_block l [] _ (Forall_nil _) Hl)).
